@@ -608,8 +608,8 @@ func (w *hWorld) snapshot() []string {
 func indepAtom(t *pb.TermV2, syms []string) (SAtom, error) {
 	str := func(i uint64) string {
 		if i < 1024 {
-			if int(i) < len(datalog.DEFAULT_SYMBOLS) {
-				return datalog.DEFAULT_SYMBOLS[i]
+			if int(i) < len(publishedDefaults) {
+				return publishedDefaults[i]
 			}
 			return fmt.Sprintf("<invalid symbol %d>", i)
 		}
@@ -714,13 +714,26 @@ func indepDecode(bs []byte, base []string) ([]SBlock, []string, []uint32, error)
 		pbs = append(pbs, &b)
 	}
 	syms := append([]string{}, base...)
-	for _, b := range pbs {
-		syms = append(syms, b.Symbols...)
-	}
 	var out []SBlock
 	var ctxs []string
 	var vers []uint32
-	for _, b := range pbs {
+	for bi, b := range pbs {
+		// published symbol rules: a block's own table holds NEW symbols only (no default symbol,
+		// nothing an earlier block or the base table declared), and the block is resolved from
+		// the base table, the earlier blocks' tables and its own
+		for _, s := range b.Symbols {
+			for di, d := range publishedDefaults {
+				if s == d {
+					return nil, nil, nil, fmt.Errorf("block %d re-declares the default symbol %q (published index %d) in its own table %q", bi, s, di, b.Symbols)
+				}
+			}
+			for _, e := range syms {
+				if s == e {
+					return nil, nil, nil, fmt.Errorf("block %d re-declares the symbol %q that an earlier table already holds", bi, s)
+				}
+			}
+			syms = append(syms, s)
+		}
 		var sb SBlock
 		for _, f := range b.FactsV2 {
 			p, err := indepPred(f.Predicate, syms)
